@@ -149,5 +149,6 @@ ObsCorrupt(o, d, kind, snap) ==
   LET o0 == V(o, ~Overdue(o), "UpdaterMissedRun")
   IN [o0 EXCEPT !.snap = snap]
 
-ObsEnd(o) == V(o, ~Overdue(o), "UpdaterMissedRun")
+\* badName: some TXT query was not for _mta-sts.<a domain Get/the store named>
+ObsEnd(o, badName) == V(V(o, ~Overdue(o), "UpdaterMissedRun"), ~badName, "QueriedWrongName")
 =============================================================================
